@@ -59,6 +59,26 @@ CHECKS = {
          "reduction of strings of length 0..200, ordering, hashing; Fq select / ct_eq / power). The driver zips the two "
          "transcripts; TLC accepts a pair only if call, arguments and every observable (all logged fields but the internal "
          "representative) are identical, and each transcript is separately validated as a behaviour of Session / FieldAPI.", "5 C12"),
+ "C13": ("Toy: the constraint blocks of compress / decompress / Elligator as coded (L2 predicates Sat(inputs, hints)) are "
+         "complete with honest hints -- satisfied iff the native operation succeeds, forced outputs = native outputs, root "
+         "sign irrelevant -- on every input of six toy curves; the lazy variable of lazy.rs is a TLA+ state machine whose "
+         "every accessor-call sequence is explored (values never change, constraints only on the single transition, no "
+         "unreachable!() arm). Real: 35 gadgets x allocation modes synthesised on fresh constraint systems over all "
+         "representatives of the element alphabet, valid/invalid/negated encodings and random inputs; satisfaction and output "
+         "values checked by TLC against L0/L1; all 363 forcing sequences of length <= 5 generated by TLC from LazyVar.tla are "
+         "replayed into the real ElementVar from both initial states with per-call constraint deltas.", "5 C13"),
+ "C14": ("Toy (the core): every input x EVERY hint pair (flag, y) in BOOLEAN x F_p: the set of satisfying hints that break the "
+         "isqrt contract is exactly {den = 0, flag, y = +-1}; its only consequence is in-circuit decode of s = -1; compress "
+         "and Elligator are unaffected. Real: hook-substituted hints (0, +-1, +-sqrt(1/x), +-sqrt(zeta/x), flipped flags, "
+         "random) x input classes for isqrt/decompress/Elligator/compress, and offered witness coordinates (other coset member, "
+         "rescaled/off-curve/random pairs, curve points outside 2E): whenever the real constraint system is satisfied TLC "
+         "checks the output equals the native result and the native operation accepts. The den = 0 hole is a recorded known "
+         "finding (known_findings.txt).", "5 C14"),
+ "C15": ("Circuit registry in R1csTrace.tla: the shape (constraints, instance and witness variables, hash of the A/B/C matrices) "
+         "of each gadget x mode and of the seven pinned circuits is bound at first observation and must be reproduced for every "
+         "input and in setup vs proving mode; a public-input element contributes exactly one instance variable = EncodeSpec = "
+         "ToConstraintField; Groth16 proofs made with the pinned proving keys verify under the pinned verifying keys and are "
+         "rejected for other public inputs, with the public inputs recomputed by TLC.", "5 C15"),
  "C17": ("Exhaustive over the finite list of public constants of both builds (105 + 41 constant reads): each is dumped by the "
          "harness as a canonical integer and TLC checks its defining equation recomputed from the modulus / curve alone "
          "(2*HALF+1=p, bit size, two-adicity by definition, TRACE*2^s=p-1 odd, generator = conventional one and g^((p-1)/l)!=1 "
